@@ -126,6 +126,10 @@ func (l AbstractListSchema[ItemType]) Unserialize(data any) (any, error) {
 }
 
 func (l AbstractListSchema[ItemType]) ValidateCompatibility(typeOrData any) error {
+	return l.validateCompatibilityIn(typeOrData, comparedObjects{})
+}
+
+func (l AbstractListSchema[ItemType]) validateCompatibilityIn(typeOrData any, compared comparedObjects) error {
 	// Check if it's a schema.Type. If it is, verify it. If not, verify it as data.
 	value := reflect.ValueOf(typeOrData)
 	valueKind := reflect.Indirect(value).Kind()
@@ -135,7 +139,7 @@ func (l AbstractListSchema[ItemType]) ValidateCompatibility(typeOrData any) erro
 		lengthOfSlice := value.Len()
 		for i := 0; i < lengthOfSlice; i++ {
 			itemInList := value.Index(i).Interface()
-			err := l.ItemsValue.ValidateCompatibility(itemInList)
+			err := validateCompatibilityIn(l.ItemsValue, itemInList, compared)
 			if err != nil {
 				return ConstraintErrorAddPathSegment(err, fmt.Sprintf("[%d]", i))
 			}
@@ -184,7 +188,7 @@ func (l AbstractListSchema[ItemType]) ValidateCompatibility(typeOrData any) erro
 		}
 	}
 	// Validate the list sub-type
-	return l.ItemsValue.ValidateCompatibility(itemType)
+	return validateCompatibilityIn(l.ItemsValue, itemType, compared)
 }
 
 func (l AbstractListSchema[ItemType]) Validate(data any) error {
